@@ -365,6 +365,71 @@ def _root(t):
     return t.id if isinstance(t, ast.Name) else None
 
 
+def identity_keyed_attribute_memos(run, rule, prog, eff, classes):
+    """if obj is not self._last: self._a = obj.attr; ...; self._last = obj -- a one-entry memo of an *attribute* of another object, keyed by
+    that object's identity.  If the attribute can be rebound after construction (some method other than the constructor assigns it), the
+    object stays the same while the attribute changes, and the memo keeps serving the old value."""
+    from .inline import flatten, class_lookup
+    n = 0
+    rebindable = {}
+
+    def can_rebind(attr):
+        if attr not in rebindable:
+            who = None
+            for c in prog.classes.values():
+                for mname, m in list(c.methods.items()) + list(c.setters.items()):
+                    if mname in ('__init__', '__cinit__'):
+                        continue
+                    try:
+                        if attr in eff.summary(m).writes:
+                            who = '%s.%s' % (c.name, mname)
+                            break
+                    except Exception:
+                        continue
+                if who:
+                    break
+            rebindable[attr] = who
+        return rebindable[attr]
+    for ci in classes:
+        for mname, m in sorted(ci.methods.items()):
+            tests = [i for i in ast.walk(m) if isinstance(i, ast.If) and isinstance(i.test, ast.Compare) and len(i.test.ops) == 1
+                     and isinstance(i.test.ops[0], (ast.IsNot, ast.NotEq))]
+            if not tests:
+                continue
+            params = {a.arg for a in m.args.args} - {'self'}
+            try:
+                mf = flatten(m, class_lookup(prog, ci))
+            except Exception:
+                mf = m
+            for i in [i for i in ast.walk(mf) if isinstance(i, ast.If) and isinstance(i.test, ast.Compare) and len(i.test.ops) == 1
+                      and isinstance(i.test.ops[0], (ast.IsNot, ast.NotEq))]:
+                l, r = i.test.left, i.test.comparators[0]
+                pair = [(a, b) for a, b in ((l, r), (r, l)) if isinstance(a, ast.Name) and a.id in params
+                        and isinstance(b, ast.Attribute) and norm(b.value) == 'self']
+                if not pair:
+                    continue
+                obj, last = pair[0][0].id, pair[0][1].attr
+                body_stores = [st for x in i.body for st in ast.walk(x) if isinstance(st, ast.Assign) and len(st.targets) == 1
+                               and isinstance(st.targets[0], ast.Attribute) and norm(st.targets[0].value) == 'self']
+                if not any(st.targets[0].attr == last and isinstance(st.value, ast.Name) for st in body_stores):
+                    continue
+                for st in body_stores:
+                    v = st.value
+                    if isinstance(v, ast.Attribute) and isinstance(v.value, ast.Name) and (v.value.id == obj or any(
+                            isinstance(q, ast.Assign) and norm(q.targets[0]) == v.value.id and norm(q.value) == obj for q in ast.walk(mf))):
+                        n += 1
+                        run.subject(rule)
+                        who = can_rebind(v.attr)
+                        if who:
+                            run.fail(rule, '%s|%s.%s|identity-memo:%s' % (ci.mod.name, ci.name, mname, v.attr), ci.mod.relpath, st.lineno,
+                                     "%s.%s keeps %s.%s in self.%s and refreshes it only when a *different* object is passed (%s); %s rebinds "
+                                     "that attribute on the same object, after which the kept value is stale: results depend on what was "
+                                     "evaluated before the change" % (ci.name, mname, obj, v.attr, st.targets[0].attr, norm(i.test), who))
+                        else:
+                            run.ok(rule, '%s.%s keeps %s.%s' % (ci.name, mname, obj, v.attr), 'assigned by constructors only', sample=False)
+    return n
+
+
 def last_call_memos(run, rule, mi, name, fn):
     """'global _last, _value; if arg is not _last: _value = f(arg); _last = arg' -- a one-entry memo keyed by the *identity* of an array:
     the array can be edited in place between two calls, the identity stays, the memoised value is stale."""
@@ -489,6 +554,7 @@ def check_caches(run, modules, rule, functions=None, prog=None):
             nstores += check_inline_memos(run, rule, prog, eff, classes, describe=False)
             nstores += check_ctor_derived(run, rule, prog, eff, classes)
             nstores += check_shared_defaults(run, rule, prog, eff, classes)
+            nstores += identity_keyed_attribute_memos(run, rule, prog, eff, classes)
             from .rules._purity import swapped_arguments
             for m_ in modules:
                 for call_, callee_, a_, p_ in swapped_arguments(prog, m_):
